@@ -61,6 +61,9 @@ type dest struct {
 	nput   int
 	failAt int  // fail the k-th BlockPut (1-based); 0 = never
 	always bool // keep failing afterwards
+	// failCid: fail (once) the put of this block
+	failCid    string
+	failCidHit bool
 }
 
 type ipfsSvc struct{ d *dest }
@@ -72,6 +75,10 @@ func (s *ipfsSvc) BlockPut(ctx context.Context, in *api.NodeWithMeta, out *struc
 	d.nput++
 	if d.failAt > 0 && (d.nput == d.failAt || (d.always && d.nput > d.failAt)) {
 		return fmt.Errorf("injected block put failure")
+	}
+	if d.failCid != "" && !d.failCidHit && in.Cid.String() == d.failCid {
+		d.failCidHit = true
+		return fmt.Errorf("injected block put failure (transient)")
 	}
 	// verify the CID matches the data
 	d.blocks[in.Cid.String()] = append([]byte(nil), in.Data...)
@@ -410,6 +417,7 @@ func resetFixture() {
 		d.blocks = map[string][]byte{}
 		d.order = nil
 		d.nput, d.failAt, d.always = 0, 0, false
+		d.failCid, d.failCidHit = "", false
 		d.mu.Unlock()
 	}
 	cluster.mu.Lock()
@@ -437,7 +445,7 @@ func plist(ps []peer.ID) string {
 
 var optNorm = cmpx.Norm{DropAllocs: true}
 
-const rule = "case = file tree (0-2 levels, files of size 0, 1, chunk-1, chunk, chunk+1, 3 chunks + r, 7 chunks, names incl. hidden, unicode, spaces; a single file, a single directory or several entries with wrap) x chunker (size-32/64/256, rabin-16-32-64) x layout x raw leaves x CID version x hash function x pin options x destinations (1-3 real libp2p hosts with a recording BlockPut, or local) x sharding with a shard size giving 1-6 shards (and a class with > 5984 links in one shard) x optional block-put failure at block k of destination d (once or from then on) x optional pin failure; oracle: delivered blocks closed under links from the root, every file reads back byte-identical through DagReader over delivered blocks only, root(sharded) = root(unsharded) = root of a reference importer built from go-unixfs primitives, pin log exactly as the statement says, failure of every destination for some block => error and no root/meta pin; non-trivial = >= 2 files with one larger than a chunk, or >= 2 shards, or a fault; distinct by rendering"
+const rule = "case = file tree (0-2 levels, files of size 0, 1, chunk-1, chunk, chunk+1, 3 chunks + r, 7 chunks, names incl. hidden, unicode, spaces; a single file, a single directory or several entries with wrap) x chunker (size-32/64/256, rabin-16-32-64) x layout x raw leaves x CID version x hash function x pin options x destinations (1-3 real libp2p hosts with a recording BlockPut, or local) x sharding with a shard size giving 1-6 shards (and a class with > 5984 links in one shard) x optional block-put failure at block k of destination d (once or from then on) or a transient failure of the put of a multi-chunk file's first chunk on every destination x optional pin failure; oracle: delivered blocks closed under links from the root, every file reads back byte-identical through DagReader over delivered blocks only, root(sharded) = root(unsharded) = root of a reference importer built from go-unixfs primitives, pin log exactly as the statement says, failure of every destination for some block => error and no root/meta pin; non-trivial = >= 2 files with one larger than a chunk, or >= 2 shards, or a fault; distinct by rendering"
 
 func TestAdd(t *testing.T) {
 	leg := ev.L("add", rule)
@@ -532,6 +540,7 @@ func TestAdd(t *testing.T) {
 				d.failAt, d.always = k, always
 			}
 		}
+		firstChunkFault := fault && rapid.IntRange(0, 2).Draw(t, "firstChunkFault") == 0
 		pinFails := rapid.IntRange(0, 9).Draw(t, "pinFails") == 0
 		cluster.failPin = pinFails
 
@@ -560,6 +569,21 @@ func TestAdd(t *testing.T) {
 		}
 		if refErr != nil {
 			t.Fatalf("harness: reference import failed: %v", refErr)
+		}
+		// a transient failure of the put of the first chunk of a multi-chunk
+		// file, on every destination (the importer does not look at the
+		// result of that particular put; the failure must still surface)
+		if fault && firstChunkFault {
+			if fc := firstChunks(ref); len(fc) > 0 {
+				c := fc[rapid.IntRange(0, len(fc)-1).Draw(t, "firstChunk")]
+				for _, d := range dests {
+					d.mu.Lock()
+					d.failAt, d.always, d.failCid = 0, false, c.String()
+					d.mu.Unlock()
+				}
+				faultAll = true
+				desc += " fault=first-chunk:" + c.String()
+			}
 		}
 
 		// run the adder
@@ -872,3 +896,49 @@ func checkSharded(t *rapid.T, desc string, pins []*api.Pin, root cid.Cid, po api
 
 var _ = cbor.DecodeBlock
 var _ = io.EOF
+
+// firstChunks returns the first leaf of every multi-chunk file of the
+// reference DAG, sorted.
+func firstChunks(ref *memDag) []cid.Cid {
+	internal := map[string]ipld.Node{}
+	linked := map[string]bool{}
+	for k, n := range ref.m {
+		ls := n.Links()
+		if len(ls) == 0 {
+			continue
+		}
+		nameless := true
+		for _, l := range ls {
+			if l.Name != "" {
+				nameless = false
+			}
+		}
+		if nameless {
+			internal[k] = n
+		}
+	}
+	for _, n := range internal {
+		for _, l := range n.Links() {
+			linked[l.Cid.String()] = true
+		}
+	}
+	var out []cid.Cid
+	for k, n := range internal {
+		if linked[k] {
+			continue
+		}
+		cur := n
+		for len(cur.Links()) > 0 {
+			next, ok := ref.m[cur.Links()[0].Cid.String()]
+			if !ok {
+				break
+			}
+			cur = next
+		}
+		if len(cur.Links()) == 0 {
+			out = append(out, cur.Cid())
+		}
+	}
+	sort.Slice(out, func(i, j int) bool { return out[i].String() < out[j].String() })
+	return out
+}
